@@ -116,7 +116,12 @@ def classify(pr, job, harness_file):
     if 'canary' in d:
         return 'canary', None
     in_harness = pr.file is not None and os.path.basename(pr.file) == os.path.basename(harness_file)
-    tag = job.clause_map.get(pr.line) if in_harness else None
+    if in_harness:
+        tag = job.clause_map.get(pr.line)
+    elif pr.file is not None:
+        tag = job.clause_map.get('%s:%s' % (os.path.basename(pr.file), pr.line))
+    else:
+        tag = None
     if '.postcondition.' in n or d.startswith('Check ensures clause'):
         return 'post', tag
     if '.assigns.' in n or 'is assignable' in d or 'frame condition' in d.lower():
@@ -130,6 +135,17 @@ def classify(pr, job, harness_file):
     if '.precondition.' in n or d.startswith('Check requires clause'):
         return 'safety', tag
     return 'safety', None
+
+
+def scan_tags(path):
+    """/*TAG Cxx:what*/ comments in a hand-written contract header -> {'file:line': tag}."""
+    out = {}
+    base = os.path.basename(path)
+    for i, l in enumerate(open(path).read().split('\n'), 1):
+        m = re.search(r'/\*TAG\s+(\S+?)\s*\*/', l)
+        if m:
+            out['%s:%d' % (base, i)] = m.group(1)
+    return out
 
 
 def expand_loop_contract(template, incdirs):
